@@ -254,10 +254,8 @@ Title=\"{}\"
                 first = 0
                 # find all used muxer-values
                 multiplexer_list = set([a.multiplex for a in frame.signals])
-                # ticker all used muxer-values only
-                for i in multiplexer_list:
-                    if type(i) != int:
-                        continue
+                # ticker all used muxer-values only, in ascending order (set order depends on the hash seed)
+                for i in sorted(a for a in multiplexer_list if type(a) == int):
                     found = 0
                     mux_out = ""
                     # ticker all signals
